@@ -216,7 +216,7 @@ for lx in range(4):
 for lx, ly in ((1, 1), (1, 2), (2, 1), (2, 2)):
     K("c12_long_mul_%dx%d" % (lx, ly), "bigint", C12P, "long_mul(x,y): value == val(x)*val(y), normalised (scalar_mul by contract over an uninterpreted commutative product)", [BI + "long_mul"], strength="bounded", bound="x of %d, y of %d limbs" % (lx, ly), features=BOTH_VEC, zflags=("stubbing",), timeout=1200, tier="quick" if (lx, ly) == (1, 1) else "thorough")
     K("c12_large_mul_%dx%d" % (lx, ly), "bigint", C12P, "large_mul(x,y): value' = value*val(y) (one-limb y via small_mul, otherwise long_mul(y,x))", [BI + "large_mul"], strength="bounded", bound="x of %d, y of %d limbs" % (lx, ly), features=BOTH_VEC, zflags=("stubbing",), timeout=1200, tier="quick" if (lx, ly) in ((1, 1), (2, 1)) else "thorough")
-K("c12_long_mul_zero_limb", "bigint", C12P, "long_mul([x0], [0, y1]) == x0*y1 * 2^64: a zero low limb of the multiplier contributes nothing but keeps its position", [BI + "long_mul"], strength="bounded", bound="x of 1 limb, y = [0, y1]", features=BOTH_VEC, zflags=("stubbing",), timeout=900)
+K("c12_long_mul_zero_limb", "bigint", C12P, "long_mul([x0], [0, y1]) == x0*y1 * 2^64: a zero low limb of the multiplier contributes nothing but keeps its position", [BI + "long_mul"], strength="bounded", bound="x of 1 limb, y = [0, y1]", features=["default"], zflags=("stubbing",), timeout=1200)
 K("c12_long_mul_zero_inner_limb", "bigint", C12P, "long_mul([x0], [y0, 0, y2]) == x0*y0 + x0*y2 * 2^128", [BI + "long_mul"], strength="bounded", bound="x of 1 limb, y = [y0, 0, y2]", features=["default"], zflags=("stubbing",), timeout=1800, tier="thorough")
 K("c12_mul_assign_wrappers", "bigint", C12P, "Bigint *= &Bigint and VecType *= &[Limb] (one-limb operands): value' = value * val(rhs)", ["bigint::Bigint::mul_assign", "stackvec::StackVec::mul_assign / heapvec::HeapVec::mul_assign"], strength="bounded", bound="one-limb operands", features=BOTH_VEC, zflags=("stubbing",), timeout=900)
 for lx, ly in ((1, 3), (3, 1)):
@@ -426,5 +426,5 @@ K("c14_float_pow10_ondemand_libm", "num", ["C14", "C05", "C08"], "no_std+compact
 
 # negative_digit_comp: scaling plan and decision, all inputs (Bigint::pow as recorder)
 for t in ("f64", "f32"):
-    K("pslow_negative_plan_" + t, "slow", PSP, "negative_digit_comp::<%s> with Bigint::pow a pure recorder, ALL normalised estimates, ALL one-limb digit integers, ALL scales -4000 <= real_exp < 0: b+h = (2 m_b + 1, e_b - 1) from the truncated estimate; b+h scaled by 5^(-real_exp); with binary_exp = (e_b - 1) - real_exp the power 2^|binary_exp| goes to b+h if positive, to the digits if negative; result is b or the float above b exactly as the (recorded, unscaled) comparison says" % t, ["slow::negative_digit_comp", "slow::bh", "slow::b", "rounding::round", "rounding::round_down"], strength="proved", features=["default", "compact"], zflags=("stubbing",), timeout=900)
+    K("pslow_negative_plan_" + t, "slow", PSP, "negative_digit_comp::<%s> with Bigint::pow a pure recorder, ALL normalised estimates, ALL one-limb digit integers, ALL scales -4000 <= real_exp < 0: b+h = (2 m_b + 1, e_b - 1) from the truncated estimate; b+h scaled by 5^(-real_exp); with binary_exp = (e_b - 1) - real_exp the power 2^|binary_exp| goes to b+h if positive, to the digits if negative; result is b or the float above b exactly as the (recorded, unscaled) comparison says" % t, ["slow::negative_digit_comp", "slow::bh", "slow::b", "rounding::round", "rounding::round_down"], strength="proved", features=["default", "compact"], zflags=("stubbing",), timeout=1200, tier="quick" if t == "f64" else "thorough")
     # (pslow_negative_tie_*: the tie decision with a pure recorder took 10 min (f32) / crashed CBMC (f64): NOT registered; ties stay with pslow_negative_comp_*_tie)
